@@ -2,6 +2,7 @@ import Ogen.IntRoundTrip_proof
 import Ogen.Generated.Facts_float
 import Ogen.UnixTime_proof
 import Ogen.UuidText_proof
+import Ogen.DurationText_proof
 /-!
 # C13 — text forms of primitive values parse back to the same value (partial)
 
@@ -80,5 +81,24 @@ theorem uuid_text_injective (v w : List UInt8) (hv : v.length = 16) (hw : w.leng
 example : UuidT.hexEncode [0x12, 0x3e, 0x45, 0x67, 0xe8, 0x9b, 0x12, 0xd3, 0xa4, 0x56, 0x42, 0x66, 0x14, 0x17, 0x40, 0x00] =
     [49, 50, 51, 101, 52, 53, 54, 55, 45, 101, 56, 57, 98, 45, 49, 50, 100, 51, 45, 97, 52, 53, 54, 45,
       52, 50, 54, 54, 49, 52, 49, 55, 52, 48, 48, 48] := by decide  -- "123e4567-e89b-12d3-a456-426614174000"
+
+/-! ### durations (ogen's own writer `json.formatDuration`, a port of `time.Duration.String`)
+
+`DurT.value` is the reading of a duration text that `time.ParseDuration` documents (sign, terms
+`digits[.digits]unit`, exact arithmetic); the tie compares it with `time.ParseDuration` on written texts and their
+one-byte mutants, and `DurT.format` with `json.EncodeDuration` / `Duration.String`. -/
+
+/-- **every duration is read back from the text ogen writes for it** (every `int64` number of nanoseconds, the
+    minimum included; a text whose value does not fit is refused by `value` as by `time.ParseDuration`) -/
+theorem duration_rt (d : Int) (hlo : -9223372036854775808 ≤ d) (hhi : d < 9223372036854775808) :
+    DurT.value (DurT.format d) = some d := DurT.value_format d hlo hhi
+
+/-- the fraction is written without trailing zeros and never as a bare point: no digits iff the remainder is 0 -/
+theorem duration_fraction_canonical (v prec : Nat) :
+    (DurT.fracDigits v prec = [] ↔ v % 10 ^ prec = 0) ∧ (DurT.fracDigits v prec).length ≤ prec :=
+  ⟨(DurT.fracGo_spec prec v).2.2.2.2, (DurT.fracGo_spec prec v).2.2.1⟩
+
+example : DurT.format 5400000000000 = [49, 104, 51, 48, 109, 48, 115] := by simp [DurT.format, DurT.body, DurT.fmtFrac, DurT.fracText, DurT.fracDigits, DurT.fracGo, IntRT.fmtNat, IntRT.digitsAux, IntRT.digitChar]
+example : DurT.format (-1500000) = [45, 49, 46, 53, 109, 115] := by simp [DurT.format, DurT.body, DurT.fmtFrac, DurT.fracText, DurT.fracDigits, DurT.fracGo, IntRT.fmtNat, IntRT.digitsAux, IntRT.digitChar]
 
 end C13
